@@ -53,8 +53,17 @@ def inrange(v, lo, hi):
 
 
 def eq(a, b):
+    """equality that is simply False for values of different kinds (specs evaluate all conjuncts eagerly)"""
     if isinstance(a, (SBytes,)) and isinstance(b, SBytes):
         return V.bytes_eq(a, b)
+    if isinstance(a, (SBytes, LBytes)) or isinstance(b, (SBytes, LBytes)):
+        if isinstance(a, (SBytes, LBytes)) and isinstance(b, (SBytes, LBytes)):
+            return same_bytes(a, b)
+        return False
+    if a is None or b is None:
+        return a is b
+    if not (V.is_intlike(a) and V.is_intlike(b)):
+        return False
     return compare("==", a, b)
 
 
@@ -231,3 +240,8 @@ def is_extended_by(new, old, chunk_items):
 
 def is_byteslike(v):
     return isinstance(v, (SBytes, LBytes))
+
+
+def int_item(v):
+    """int|SInt in 0..255 -> byte item"""
+    return V.int_to_byte(v)
